@@ -418,3 +418,59 @@ Proof.
   split; [|split; vm_compute; reflexivity].
   repeat split; try (vm_compute; congruence); cbn; lia.
 Qed.
+
+Lemma skipn_add {A} a b (l : list A) : skipn (a + b) l = skipn b (skipn a l).
+Proof.
+  revert l. induction a as [|a IH]; intros l; [reflexivity|].
+  destruct l as [|x l]; [now rewrite !skipn_nil|]. cbn [Nat.add skipn]. apply IH.
+Qed.
+
+(* ---- C07 gate (frame branch): whenever checkFrame accepts — from ANY state — the header is the
+   first 7 buffered bytes, its length field is >= 2 and the PDU handed to the decoder is exactly
+   the next len-1 bytes, all of them present ---- *)
+Theorem tcp_check_gate st st1 :
+  t_check tcp st = Ok (st1, true) ->
+  t_buf st1 = t_buf st /\ t_hdr st1 = hdr_of (firstn 7 (t_buf st)) /\ 2 <= h_len (t_hdr st1) /\
+  t_getframe tcp st1 = firstn (Z.to_nat (h_len (t_hdr st1) - 1)) (skipn 7 (t_buf st)) /\
+  Z.of_nat (length (t_getframe tcp st1)) = h_len (t_hdr st1) - 1 /\
+  t_buf st = firstn 7 (t_buf st) ++ t_getframe tcp st1 ++ t_buf (t_advance tcp st1).
+Proof.
+  intros H. unfold t_check in H. destruct (t_isready tcp st) eqn:Hr; [|discriminate].
+  rewrite ready_eq in Hr.
+  assert (Hlen : (7 < length (t_buf st))%nat) by lia.
+  assert (H' : t_check tcp st = Ok (st1, true)).
+  { unfold t_check. rewrite ready_eq. replace (Z.of_nat (length (t_buf st)) >? 7) with true by lia. exact H. }
+  rewrite check_ready in H' by exact Hlen.
+  remember (hdr_of (firstn 7 (t_buf st))) as h eqn:Hh. cbv zeta in H'.
+  destruct (h_len h <? 2) eqn:E2; [discriminate|].
+  destruct (Z.of_nat (length (t_buf st)) - 7 + 1 >=? h_len h) eqn:Ec; [|discriminate].
+  assert (Hst1 : st1 = {| t_buf := t_buf st; t_hdr := h |}) by congruence. subst st1. clear H'.
+  change (t_buf {| t_buf := t_buf st; t_hdr := h |}) with (t_buf st).
+  change (t_hdr {| t_buf := t_buf st; t_hdr := h |}) with h.
+  split; [reflexivity|]. split; [reflexivity|]. split; [lia|].
+  rewrite getframe_eq.
+  change (t_buf {| t_buf := t_buf st; t_hdr := h |}) with (t_buf st).
+  change (t_hdr {| t_buf := t_buf st; t_hdr := h |}) with h.
+  rewrite pyslice_nonneg by lia. change (Z.to_nat 7) with 7%nat.
+  replace (7 + h_len h - 1 - 7) with (h_len h - 1) by lia.
+  split; [reflexivity|]. split.
+  - rewrite firstn_length, skipn_length. lia.
+  - rewrite advance_eq.
+    change (t_buf {| t_buf := t_buf st; t_hdr := h |}) with (t_buf st).
+    change (t_hdr {| t_buf := t_buf st; t_hdr := h |}) with h.
+    change (t_buf {| t_buf := pyfrom (t_buf st) (7 + h_len h - 1); t_hdr := hdr0 |}) with (pyfrom (t_buf st) (7 + h_len h - 1)).
+    rewrite pyfrom_nonneg by lia.
+    replace (Z.to_nat (7 + h_len h - 1)) with (7 + Z.to_nat (h_len h - 1))%nat by lia.
+    rewrite skipn_add, firstn_skipn, firstn_skipn. reflexivity.
+Qed.
+
+(* the error path: what the open defect delivers is the raw 1..7-byte buffer, not a frame *)
+Lemma tcp_errpath_refuted :
+  exists dec c chunk d,
+    t_recv base tcp dec c (t_init tcp) chunk = ({| t_buf := [1%N]; t_hdr := hdr0 |}, [d], Done) /\
+    (length chunk < 8)%nat /\ d_pdu d = chunk /\ justified_tcp chunk d = false.
+Proof.
+  exists (fun _ => DMsg 128), {| c_units := [1]; c_single := Some false |},
+         [128%N; 1%N; 0%N; 0%N; 0%N; 6%N; 1%N].
+  eexists. vm_compute. repeat split; reflexivity.
+Qed.
